@@ -28,7 +28,8 @@ def k_batch(tier, deep=False):
 
 def k_queue(tier):
     q = [_ob("K-queue/N3", "harness.k_queue", "k_queue", dict(N=3)),
-         _ob("K-queue/N4-fan", "harness.k_queue", "k_queue", dict(N=4, shapes=[[1, 0], [2, 0], [3, 0], [3, 1], [3, 2]]))]
+         _ob("K-queue/N4-fan", "harness.k_queue", "k_queue", dict(N=4, shapes=[[1, 0], [2, 0], [3, 0], [3, 1], [3, 2]])),
+         _ob("K-queue/N3/nonmanager", "harness.k_queue", "k_queue", dict(N=3, manager=False))]
     if tier == "quick":
         return q
     return q + [_ob("K-queue/N4", "harness.k_queue", "k_queue", dict(N=4))]
@@ -44,7 +45,7 @@ _HO = dict(opts=dict(path_seconds=0), cvc5=False)
 
 def h_submit(tier):
     q = [
-        _ob("H-submit/N3", H, "h_submit", dict(shapes=["chain3", "fork3", "join3", "mid3"], bss=[1, 2], maxns=[None, 1]), **_HO),
+        _ob("H-submit/N3", H, "h_submit", dict(shapes=["chain3", "fork3", "join3", "mid3", "tri3"], bss=[1, 2], maxns=[None, 1]), **_HO),
         _ob("H-submit/time", H, "h_submit", dict(shapes=["mid3", "chain3"], bss=[1], maxns=[None, 1], time_based=True,
                                                   fails=False), **_HO),
         _ob("H-submit/G2", H, "h_submit", dict(shapes=["chain3"], bss=[1, 2], maxns=[None], G=2, fails=False), **_HO),
@@ -60,7 +61,7 @@ def h_submit(tier):
     if tier == "quick":
         return q
     return q + [
-        _ob("H-submit/N3-wide", H, "h_submit", dict(shapes=["chain3", "indep3", "fork3", "join3", "rchain3", "mid3"],
+        _ob("H-submit/N3-wide", H, "h_submit", dict(shapes=["chain3", "indep3", "fork3", "join3", "rchain3", "mid3", "tri3"],
                                                      bss=[1, 2, 3], maxns=[None, 1, 2], tas=[True, False]), **_HO),
         _ob("H-submit/G2-wide", H, "h_submit", dict(shapes=["indep3", "chain3", "join3"], bss=[1, 2], maxns=[None, 1], G=2,
                                                      fails=False), **_HO),
@@ -193,6 +194,10 @@ def c13(tier):
                                                          flagsets=[[], ["--successful"]]), **_HO)]
     if tier == "quick":
         return q
+    q = q + [_ob("H-resubmit/fault-wide", HR, "h_resubmit", dict(shapes=["chain3", "join3", "fork3"], bss=[1, 2], incomplete=False,
+                                                                 fault_kinds=["edquot", "lock_timeout", "sbatch"], lock_mode="M2"), **_HO),
+             _ob("H-resubmit/twice-wide", HR, "h_resubmit", dict(shapes=["chain3", "join3"], bss=[1, 2], incomplete=False, second=True),
+                 **_HO)]
     return q + [_ob("H-resubmit/wide", HR, "h_resubmit", dict(shapes=["chain3", "fork3", "join3"], bss=[1, 2]), **_HO),
                 _ob("K-closure/N4", HR, "k_closure", dict(N=4, outcomes=2))]
 
